@@ -14,7 +14,13 @@ package harness
 //     authorities whose handler panics; tiny gas limits make actions run out of gas.  The outcome
 //     of every action is read from the keeper's own log lines, executed/detected ids from the
 //     typed events, balances from the bank keeper, registry/queue/gas-limit/listener stores from
-//     the keeper (queue counters and raw keys through x/trigger/keeper/verif_hooks.go).
+//     the keeper (queue counters and raw keys through x/trigger/keeper/verif_hooks.go);
+//   * the module under test is built (triggerkeeper.NewKeeper, exported) on the app's store key with
+//     the app's MsgServiceRouter wrapped so that every action handler call records the gas it
+//     consumed on the gas meter of the context it was given (trigRouter): the `used=` observation
+//     of a `begin` op, from which the model derives which action runs out of the trigger's gas and
+//     on which the checker judges "the actions' work stays within the prepaid gas";
+//   * block times and time-trigger times carry sub-second parts (`<sec>.<fraction>`).
 
 import (
 	"errors"
@@ -33,6 +39,7 @@ import (
 	abci "github.com/cometbft/cometbft/abci/types"
 	cmtproto "github.com/cometbft/cometbft/proto/tendermint/types"
 
+	"github.com/cosmos/cosmos-sdk/baseapp"
 	sdk "github.com/cosmos/cosmos-sdk/types"
 	bankkeeper "github.com/cosmos/cosmos-sdk/x/bank/keeper"
 	banktypes "github.com/cosmos/cosmos-sdk/x/bank/types"
@@ -66,6 +73,34 @@ type trigEnv struct {
 	// current history
 	ctx    sdk.Context
 	events []abci.Event
+
+	// where the wrapped router records the gas each action handler consumed (nil outside BeginBlock)
+	gasLog *[]string
+}
+
+// trigRouter is the app's message router with every handler wrapped: the wrapper adds no
+// behaviour, it records how much gas the handler consumed on the meter of the context it got
+// (also when the handler panics, e.g. out of gas: the panic continues to safeHandle).
+type trigRouter struct {
+	baseapp.IMsgServiceRouter
+	e *trigEnv
+}
+
+func (r trigRouter) Handler(msg sdk.Msg) baseapp.MsgServiceHandler {
+	h := r.IMsgServiceRouter.Handler(msg)
+	if h == nil {
+		return nil
+	}
+	return func(ctx sdk.Context, m sdk.Msg) (*sdk.Result, error) {
+		gm := ctx.GasMeter()
+		before := gm.GasConsumed()
+		defer func() {
+			if r.e.gasLog != nil {
+				*r.e.gasLog = append(*r.e.gasLog, fmt.Sprintf("G %d", gm.GasConsumed()-before))
+			}
+		}()
+		return h(ctx, m)
+	}
 }
 
 var (
@@ -81,9 +116,12 @@ func trigSetup(t *testing.T) *trigEnv {
 			e.account(ctx, n)
 		}
 		e.base = ctx
-		e.srv = triggerkeeper.NewMsgServerImpl(a.TriggerKeeper)
+		// the same keeper the app builds (app.go: NewKeeper(appCodec, keys[trigger], MsgServiceRouter())),
+		// on the same store, with the router's handlers wrapped for gas observation
+		k := triggerkeeper.NewKeeper(a.AppCodec(), a.GetKey(triggertypes.StoreKey), trigRouter{a.MsgServiceRouter(), e})
+		e.srv = triggerkeeper.NewMsgServerImpl(k)
 		e.bsrv = bankkeeper.NewMsgServerImpl(a.BankKeeper)
-		e.mod = triggermodule.NewAppModule(a.AppCodec(), a.TriggerKeeper, a.AccountKeeper, a.BankKeeper)
+		e.mod = triggermodule.NewAppModule(a.AppCodec(), k, a.AccountKeeper, a.BankKeeper)
 		trigE = e
 	})
 	trigE.t = t
@@ -157,6 +195,36 @@ func trigTry(ctx sdk.Context, f func(ctx sdk.Context) error) (err error, panicke
 	return err, panicked
 }
 
+// trigParseTime reads `<unix seconds>[.<fraction, up to 9 digits>]`.
+func trigParseTime(s string) (time.Time, error) {
+	p := strings.SplitN(s, ".", 2)
+	sec, err := strconv.ParseInt(p[0], 10, 64)
+	if err != nil {
+		return time.Time{}, err
+	}
+	var ns int64
+	if len(p) == 2 {
+		if len(p[1]) == 0 || len(p[1]) > 9 {
+			return time.Time{}, fmt.Errorf("bad time %q", s)
+		}
+		ns, err = strconv.ParseInt(p[1]+strings.Repeat("0", 9-len(p[1])), 10, 64)
+		if err != nil || ns < 0 {
+			return time.Time{}, fmt.Errorf("bad time %q", s)
+		}
+	}
+	return time.Unix(sec, ns).UTC(), nil
+}
+
+// trigTimeStr renders unix nanoseconds as `<sec>[.<9 digits>]`.
+func trigTimeStr(ns int64) string {
+	if ns%1e9 == 0 {
+		return fmt.Sprint(ns / 1e9)
+	}
+	return fmt.Sprintf("%d.%09d", ns/1e9, ns%1e9)
+}
+
+func trigInt63n(r *RNG, n int64) int64 { return int64(r.U64() % uint64(n)) }
+
 func trigUnesc(s string) string { return strings.ReplaceAll(s, "~", " ") }
 func trigEsc(s string) string   { return strings.ReplaceAll(s, " ", "~") }
 
@@ -196,8 +264,8 @@ func (e *trigEnv) parseEvent(s string) (triggertypes.TriggerEventI, error) {
 		n, err := strconv.ParseUint(p[1], 10, 64)
 		return &triggertypes.BlockHeightEvent{BlockHeight: n}, err
 	case len(p) == 2 && p[0] == "t":
-		n, err := strconv.ParseInt(p[1], 10, 64)
-		return &triggertypes.BlockTimeEvent{Time: time.Unix(n, 0).UTC()}, err
+		tm, err := trigParseTime(p[1])
+		return &triggertypes.BlockTimeEvent{Time: tm}, err
 	case len(p) >= 2 && p[0] == "tx":
 		ev := &triggertypes.TransactionEvent{Name: trigUnesc(p[1])}
 		if len(p) > 2 {
@@ -280,6 +348,7 @@ var (
 type trigRun struct {
 	id, gas uint64
 	outs    []string
+	used    []string // gas consumed by each handler call, in order (from the wrapped router)
 }
 
 func trigParseLogs(lines []string) []trigRun {
@@ -299,6 +368,10 @@ func trigParseLogs(lines []string) []trigRun {
 			continue
 		}
 		r := &runs[len(runs)-1]
+		if strings.HasPrefix(l, "G ") {
+			r.used = append(r.used, l[2:])
+			continue
+		}
 		if trigReOK.MatchString(l) {
 			r.outs = append(r.outs, "ok")
 		} else if m := trigReErr.FindStringSubmatch(l); m != nil {
@@ -560,25 +633,27 @@ func (e *trigEnv) create(ws []string) string {
 
 func (e *trigEnv) begin(ws []string) (string, string) {
 	h, err1 := strconv.ParseInt(trigKV(ws, "h"), 10, 64)
-	tm, err2 := strconv.ParseInt(trigKV(ws, "t"), 10, 64)
+	tm, err2 := trigParseTime(trigKV(ws, "t"))
 	if err1 != nil || err2 != nil {
 		return "begin " + strings.Join(ws, " "), "bad-op"
 	}
-	e.ctx = e.ctx.WithBlockHeight(h).WithBlockTime(time.Unix(tm, 0).UTC())
+	e.ctx = e.ctx.WithBlockHeight(h).WithBlockTime(tm)
 	e.events = nil
 	var lines []string
 	em := sdk.NewEventManager()
+	e.gasLog = &lines
 	err, p := trigTry(e.ctx, func(ctx sdk.Context) error {
 		return e.mod.BeginBlock(ctx.WithEventManager(em).WithLogger(trigLogger{&lines}))
 	})
-	opOut := func(oog []string) string {
-		return fmt.Sprintf("begin h=%d t=%d oog=%s", h, tm, JoinOr(oog, ","))
+	e.gasLog = nil
+	opOut := func(used []string) string {
+		return fmt.Sprintf("begin h=%d t=%s used=%s", h, trigKV(ws, "t"), JoinOr(used, ","))
 	}
 	if p != "" || err != nil {
 		return opOut(nil), "panic"
 	}
 	runs := trigParseLogs(lines)
-	var oog, exec []string
+	var used, exec []string
 	i := 0
 	consistent := true
 	for _, ev := range em.ABCIEvents() {
@@ -594,10 +669,8 @@ func (e *trigEnv) begin(ws []string) (string, string) {
 		if i < len(runs) && fmt.Sprint(runs[i].id) == id {
 			gas = fmt.Sprint(runs[i].gas)
 			outs = strings.Join(runs[i].outs, ".")
-			for pos, o := range runs[i].outs {
-				if o == "oog" {
-					oog = append(oog, fmt.Sprintf("%s.%d", id, pos))
-				}
+			for pos, u := range runs[i].used {
+				used = append(used, fmt.Sprintf("%s.%d:%s", id, pos, u))
 			}
 		} else {
 			consistent = false
@@ -612,15 +685,22 @@ func (e *trigEnv) begin(ws []string) (string, string) {
 	if !consistent {
 		res += " logs-disagree-with-events"
 	}
-	return opOut(oog), res
+	return opOut(used), res
 }
 
 // ---- generator -----------------------------------------------------------------------------
 
+// trigCostEst: the generator's running estimate of what one successful action of a kind
+// ("send", "kill") consumes, learnt from the `used=` observations of earlier blocks; used only to
+// aim gas limits at the interesting region (between the dearest single action and all of them).
+var trigCostEst = map[string]uint64{}
+
 type trigGen struct {
 	rng     *RNG
 	height  int64
-	time    int64
+	time    int64 // unix nanoseconds of the current block
+	fast    bool  // sub-second block intervals
+	acts    map[int][]string
 	nextID  int        // ids handed out so far + 1 (guess; only used to aim destroy/kill)
 	owners  map[int]string
 	bursts  int
@@ -642,15 +722,7 @@ func (g *trigGen) event() string {
 			return fmt.Sprintf("h:%d", g.height+1+int64(r.Intn(4)))
 		}
 	case k < 60:
-		switch x := r.Intn(20); {
-		case x < 2:
-			return fmt.Sprintf("t:%d", g.time-int64(r.Intn(3)))
-		case x < 3:
-			// beyond the year 2554 the uint64 nanosecond order wraps around
-			return fmt.Sprintf("t:%d", 20000000000+int64(r.Intn(1000)))
-		default:
-			return fmt.Sprintf("t:%d", g.time+1+int64(r.Intn(25)))
-		}
+		return g.timeEvent()
 	default:
 		names := []string{"transfer", "transfer", "transfer", "coin_received", "coin_spent", "message", "ping", "ping",
 			"Transfer", "~transfer", "PING~"}
@@ -683,6 +755,100 @@ func (g *trigGen) event() string {
 		}
 		return "tx:" + n + ":" + strings.Join(attrs, "&")
 	}
+}
+
+// timeEvent: a block-time trigger.  Times are full timestamps: most have a sub-second part, many
+// fall within a second or so of the current block time (same or next wall-clock second, before or
+// after later blocks of that second), some sit on whole seconds, a few are already passed (or
+// exactly now) or so far away that the nanosecond order wraps.
+func (g *trigGen) timeEvent() string {
+	r := g.rng
+	const sec = int64(1e9)
+	switch x := r.Intn(100); {
+	case x < 4:
+		return "t:" + trigTimeStr(g.time) // exactly now: not in the future
+	case x < 10:
+		return "t:" + trigTimeStr(g.time-int64(r.Intn(3))*sec-int64(r.Intn(2))*trigInt63n(r, sec))
+	case x < 14:
+		// beyond the year 2554 the uint64 nanosecond order wraps around
+		return fmt.Sprintf("t:%d.%09d", 20000000000+int64(r.Intn(1000)), int64(r.Intn(2))*trigInt63n(r, sec))
+	case x < 20:
+		return "t:" + trigTimeStr(g.time+1+int64(r.Intn(3))) // a few nanoseconds ahead
+	case x < 55:
+		return "t:" + trigTimeStr(g.time+1+trigInt63n(r, sec+sec/4)) // within ~a second
+	case x < 70:
+		return "t:" + trigTimeStr((g.time/sec+1+int64(r.Intn(12)))*sec) // a whole second
+	default:
+		return "t:" + trigTimeStr(g.time+1+trigInt63n(r, 25*sec))
+	}
+}
+
+// advance moves the block time on: sub-second intervals in `fast` histories, otherwise 1..12 s with
+// (mostly) a sub-second part.
+func (g *trigGen) advance() {
+	r := g.rng
+	const sec = int64(1e9)
+	switch {
+	case g.fast:
+		g.time += 100e6 + trigInt63n(r, 1400e6)
+	case r.Chance(15):
+		g.time = (g.time/sec + 1 + int64(r.Intn(12))) * sec
+	default:
+		g.time += (1+int64(r.Intn(12)))*sec + trigInt63n(r, sec) - sec/2
+	}
+}
+
+// learn updates the cost estimates from a `begin` op line and its result.
+func (g *trigGen) learn(op, res string) {
+	used := map[string]uint64{}
+	for _, u := range trigSplit(trigKV(strings.Fields(op), "used"), ",") {
+		if p := strings.Split(u, ":"); len(p) == 2 {
+			n, _ := strconv.ParseUint(p[1], 10, 64)
+			used[p[0]] = n
+		}
+	}
+	for _, x := range trigSplit(trigKV(strings.Fields(res), "exec"), ",") {
+		p := strings.Split(x, ":")
+		if len(p) != 4 {
+			continue
+		}
+		id, _ := strconv.Atoi(p[0])
+		acts := g.acts[id]
+		for pos, o := range strings.Split(p[3], ".") {
+			if u, ok := used[fmt.Sprintf("%d.%d", id, pos)]; ok && o == "ok" && pos < len(acts) && u > 0 {
+				trigCostEst[strings.SplitN(acts[pos], ":", 2)[0]] = u
+			}
+		}
+	}
+}
+
+// aimedRem: a gas allowance for a trigger with these actions chosen around what they are expected
+// to consume: between (a bit under) the dearest single action and (a bit over) all of them — so
+// that actions which each fit the limit do not fit it together, or just do.  "" when unknown.
+func (g *trigGen) aimedRem(acts string) string {
+	r := g.rng
+	var total, mx uint64
+	for _, a := range trigSplit(acts, "|") {
+		c, ok := trigCostEst[strings.SplitN(a, ":", 2)[0]]
+		if !ok {
+			if a == "boom" {
+				continue
+			}
+			return ""
+		}
+		total += c
+		if c > mx {
+			mx = c
+		}
+	}
+	if total == 0 {
+		return ""
+	}
+	lo, hi := mx-mx/8, total+total/16
+	if r.Chance(15) {
+		lo = 0 // may not even cover one action
+	}
+	return fmt.Sprint(2510 + lo + uint64(trigInt63n(r, int64(hi-lo)+1)))
 }
 
 func (g *trigGen) actions(auths []string) string {
@@ -780,7 +946,13 @@ func (g *trigGen) create(ev string) string {
 	if r.Chance(2) {
 		acts = "-"
 	}
-	return fmt.Sprintf("create auth=%s ev=%s acts=%s rem=%s", JoinOr(auths, "+"), ev, acts, g.rem())
+	rem := g.rem()
+	if n := len(trigSplit(acts, "|")); (n >= 2 && r.Chance(45)) || (n == 1 && r.Chance(8)) {
+		if a := g.aimedRem(acts); a != "" {
+			rem = a
+		}
+	}
+	return fmt.Sprintf("create auth=%s ev=%s acts=%s rem=%s", JoinOr(auths, "+"), ev, acts, rem)
 }
 
 func driveTrig(t *testing.T, rng *RNG, n int, out *Out) {
@@ -788,7 +960,11 @@ func driveTrig(t *testing.T, rng *RNG, n int, out *Out) {
 	for hi := 0; hi < n; hi++ {
 		e.newHistory()
 		out.Comment(fmt.Sprintf("history %d", hi))
-		g := &trigGen{rng: rng, height: int64(10 + rng.Intn(50)), time: int64(1700000000 + rng.Intn(100000)), nextID: 1, owners: map[int]string{}}
+		g := &trigGen{rng: rng, height: int64(10 + rng.Intn(50)), time: int64(1700000000+rng.Intn(100000)) * 1e9, nextID: 1,
+			owners: map[int]string{}, acts: map[int][]string{}, fast: rng.Chance(35)}
+		if rng.Chance(80) {
+			g.time += trigInt63n(rng, 1e9)
+		}
 		emit := func(op string) string {
 			op2, r := e.exec(op)
 			kind := strings.Fields(op)[0]
@@ -813,8 +989,16 @@ func driveTrig(t *testing.T, rng *RNG, n int, out *Out) {
 			if rng.Chance(8) {
 				g.height += int64(rng.Intn(6))
 			}
-			g.time += 1 + int64(rng.Intn(12))
-			r := emit(fmt.Sprintf("begin h=%d t=%d oog=-", g.height, g.time))
+			g.advance()
+			beginOp := fmt.Sprintf("begin h=%d t=%s used=-", g.height, trigTimeStr(g.time))
+			op2, r := e.exec(beginOp)
+			out.Count("op:begin")
+			if w := strings.Fields(r); len(w) > 0 {
+				out.Count("begin:" + w[0])
+			}
+			out.Emit(op2, r)
+			g.learn(op2, r)
+			g.countGas(out, op2, r)
 			// distribution of what the block function did
 			for _, w := range strings.Fields(r) {
 				if strings.HasPrefix(w, "exec=") && w != "exec=-" {
@@ -851,7 +1035,7 @@ func driveTrig(t *testing.T, rng *RNG, n int, out *Out) {
 			}
 			burstEv := fmt.Sprintf("h:%d", g.height+1)
 			if rng.Chance(30) {
-				burstEv = fmt.Sprintf("t:%d", g.time+1)
+				burstEv = "t:" + trigTimeStr(g.time+1+trigInt63n(rng, 1500e6))
 			}
 			for x := 0; x < ntx; x++ {
 				k := rng.Intn(100)
@@ -871,6 +1055,10 @@ func driveTrig(t *testing.T, rng *RNG, n int, out *Out) {
 						fmt.Sscanf(r, "ok id=%d", &id)
 						g.nextID = id + 1
 						g.owners[id] = strings.Split(trigKV(strings.Fields(op), "auth"), "+")[0]
+						g.acts[id] = trigSplit(trigKV(strings.Fields(op), "acts"), "|")
+						if strings.Contains(op, "ev=t:") {
+							g.countTime(out, trigKV(strings.Fields(op), "ev")[2:])
+						}
 						if strings.Contains(op, "ev=tx:") {
 							out.Count("create:ok:tx")
 						} else if strings.Contains(op, "ev=h:") {
@@ -912,6 +1100,59 @@ func driveTrig(t *testing.T, rng *RNG, n int, out *Out) {
 				out.Count(fmt.Sprintf("end:detected=%d", len(strings.Split(r[7:], ","))))
 			}
 			emit("dump")
+		}
+	}
+}
+
+// countTime: input distribution of accepted time triggers relative to the creating block's time.
+func (g *trigGen) countTime(out *Out, ts string) {
+	tm, err := trigParseTime(ts)
+	if err != nil {
+		return
+	}
+	if tm.Nanosecond() != 0 {
+		out.Count("create:ok:time:sub-second")
+	}
+	if tm.Unix() == g.time/1e9 {
+		out.Count("create:ok:time:same-second-as-creating-block")
+	}
+}
+
+// countGas: input distribution of executed multi-action triggers by how their actions' observed gas
+// relates to the limit.
+func (g *trigGen) countGas(out *Out, op, res string) {
+	used := map[string]uint64{}
+	for _, u := range trigSplit(trigKV(strings.Fields(op), "used"), ",") {
+		if p := strings.Split(u, ":"); len(p) == 2 {
+			n, _ := strconv.ParseUint(p[1], 10, 64)
+			used[p[0]] = n
+		}
+	}
+	for _, x := range trigSplit(trigKV(strings.Fields(res), "exec"), ",") {
+		p := strings.Split(x, ":")
+		if len(p) != 4 {
+			continue
+		}
+		limit, _ := strconv.ParseUint(p[1], 10, 64)
+		outs := strings.Split(p[3], ".")
+		if len(outs) < 2 {
+			continue
+		}
+		var sum, mx uint64
+		for pos := range outs {
+			u := used[fmt.Sprintf("%s.%d", p[0], pos)]
+			sum += u
+			if u > mx {
+				mx = u
+			}
+		}
+		switch {
+		case outs[len(outs)-1] == "oog" && mx <= limit:
+			out.Count("gas:multi-action:each-fits-alone-but-not-together")
+		case outs[len(outs)-1] == "oog":
+			out.Count("gas:multi-action:oog-after-a-successful-action")
+		case sum <= limit && sum+sum/4 > limit:
+			out.Count("gas:multi-action:just-fits")
 		}
 	}
 }
